@@ -309,7 +309,7 @@ def run(tier, seed, replay=None):
     inst = plants.tlc_accept(cands, "c07/plants", ck) + plants.tlc_accept(candq, "c07/plants_qp", ck)
     inst = [I for I in inst if not I.get("thinPG")]
     rnd.shuffle(hs)
-    nh = 12 if quick else 60
+    nh = 12 if quick else 30
     jobs = [(I, hs[(i * nh) % len(hs):(i * nh) % len(hs) + nh] or hs[:nh], seed + i) for i, I in enumerate(inst)]
     from harness.core import pmap
     res = pmap(ck, _job, jobs, "c07", timeout=PMAP_TIMEOUT, chunksize=1)
